@@ -59,6 +59,19 @@ class C02(WigBedProp):
             lines = [bbgen.opt_line(o)] + bbgen.bed_lines(["chr1", "chr2"], sizes, data)
             lines += [f"Q iv chr1 0 {sizes['chr1']}", "Q iv chr2 0 50", f"Q iv chr1 {2 * 65535 - 4} {2 * 65535 + 6}"]
             out.append(CaseT(f"ipsbig{k}", "bed", [], lines, {"items_per_slot_over_u16", "multi_chrom", "multi_section", "nt"}))
+        # genome-scale coordinates: chromosomes of up to 2^32 - 1 bases, entries longer than 2^24 bases, overlapping long entries
+        for k in range(40 if tier == "thorough" else 8):
+            r = rng.fork(f"genome{k}")
+            names, sizes, data, tags = bbgen.gen_genome_scale(r, bed=True)
+            o = bbgen.gen_options(r, tier)
+            o.update({"compress": 1 if k % 4 else 0, "ips": r.choice([64, 1024]), "zooms": r.choice(["none", "auto", "100000,400000"]), "src": r.choice(["iter", "file"]), "sort": "all"})
+            lines = [bbgen.opt_line(o)] + bbgen.bed_lines(names, sizes, data) + [f"Q iv {n} 0 {sizes[n]}" for n in names]
+            nm = names[-1]
+            mid = data[nm][len(data[nm]) // 2]
+            lines += [f"Q iv {nm} {mid[0]} {mid[1]}", f"Q iv {nm} {max(0, mid[0] - 1)} {mid[0] + 1}", f"Q iv {nm} {mid[1] - 1} {min(sizes[nm], mid[1] + 20000000)}"]
+            out.append(CaseT(f"genome{k}", "bed", [], lines, self.common_tags(o, names, data, tags | {"nt"})))
+        for k in range(8 if tier == "thorough" else 2):
+            out.append(bbgen.short_dest_case(rng.fork(f"shortdest{k}"), f"shortdest{k}", True))
         return out
 
     def oracle(self, case, il):
